@@ -3,7 +3,11 @@ namespace Goflow.Gen.C20
 open Goflow Goflow.Gen
 
 def gen (k : Nat) : G (List String) := do
-  let mut out : List String := []
+  -- the canonical cases first: hashing on with several keys (one of them the empty key), hashing on with the empty
+  -- key only, hashing off, a flush threshold far below the message size
+  let okLine := "expect res ok delivered=ok corrupt=0 partitions=ok closed=ok errors=n/a"
+  let mut out : List String := ["kafka 60 1 10000 none 3", okLine, "kafka 40 1 1000000 none 1", okLine,
+    "kafka 50 0 10000 none 2", okLine, "kafka 30 1 100 none 4", okLine]
   for i in [0:k] do
     let n ← pick [1, 7, 50, 400, 2000]
     let hashing ← bool
